@@ -901,6 +901,7 @@ func TestC03(t *testing.T) {
 		"chain-time cases (real chaintime service in a bubble: conversions at slot/epoch boundaries +-1 ns and random instants), "+
 			"controller histories (real controller over the abstract scheduler: start-ups, ticks, head events, job firings, direct schedule/refresh calls; whole job table compared after every op), "+
 			"MergeDuties cases; non-trivial = a chain-time probe beyond slot 0 / a history in which at least one job was scheduled / a merge of >= 2 duties; distinct by input text")
+	col.ShardSize = 100 // a case costs ~130 ms in coqc (parsing nanosecond numerals); the shards are evaluated in parallel
 	n := EnvInt("VERIF_N", 800)
 	tier := strings.ToLower(strings.TrimSpace(getenv("VERIF_TIER", "quick")))
 	var ins []Input
